@@ -1,4 +1,8 @@
 """Symbolic (and, on concrete inputs, concrete) executor for parsed RAM programs.  DESIGN.md section 2.1."""
+import os
+import subprocess
+import tempfile
+
 import z3
 
 from vlib.common import EngineError
@@ -25,6 +29,8 @@ class Ctx:
         self.solver_time = 0.0
         self.interner = {}
         self.functors = {}      # user functor name -> python callable over values
+        self.cross = {"checked": 0, "agree": 0, "disagree": [], "cvc5_unknown": 0}
+        self.cross_budget = int(os.environ.get("VERIF_CROSSCHECK", "0"))   # number of unsat verdicts per context re-decided by cvc5
 
     def assume(self, g):
         if g is not True:
@@ -60,8 +66,34 @@ class Ctx:
         if r == z3.sat:
             return "sat", s.model()
         if r == z3.unsat:
+            if self.cross_budget > 0:
+                self.cross_budget -= 1
+                self._cross_check(s)
             return "unsat", None
         return "unknown", None
+
+    def _cross_check(self, s):
+        """re-decide an unsat verdict with cvc5 on the exported SMT-LIB text (second opinion on the encoding/solver)"""
+        try:
+            txt = "(set-logic ALL)\n" + s.to_smt2()
+            with tempfile.NamedTemporaryFile("w", suffix=".smt2", delete=False, dir=os.environ.get("VERIF_SCRATCH", "/var/tmp")) as f:
+                f.write(txt)
+                path = f.name
+            try:
+                p = subprocess.run(["cvc5", "--tlimit=60000", path], capture_output=True, text=True, timeout=90)
+                out = p.stdout.strip().splitlines()
+                ans = out[0] if out else "unknown"
+            finally:
+                os.unlink(path)
+        except Exception as e:      # the cross-check is advisory: its own failure is recorded, not fatal
+            ans = "error: %s" % str(e)[:80]
+        self.cross["checked"] += 1
+        if ans == "unsat":
+            self.cross["agree"] += 1
+        elif ans == "sat":
+            self.cross["disagree"].append("cvc5 says sat where z3 says unsat")
+        else:
+            self.cross["cvc5_unknown"] += 1
 
 
 class EqRel(sym.Rel):
